@@ -168,6 +168,8 @@ def loop_unwindset(overlay, package, harness, target_dir, log_path, extra_args, 
         except (OSError, ValueError):
             names = {}
         for mangled, pretty in names.items():
+            if not mangled.startswith("_R"):
+                continue  # type tags etc.; recursion bounds apply to function symbols
             for rx, bound in rec_rules:
                 if pretty and re.search(rx, str(pretty)):
                     pairs.append("%s:%d" % (mangled, bound))
